@@ -46,6 +46,7 @@ pub fn run(prop: &str, ctx: &Ctx) -> Option<Report> {
         "C16" => c16::run(ctx),
         "C17" => c17::run(ctx),
         "C18" => c18::run(ctx),
+        "C19" => c19::run(ctx),
         "C20" => c20::run(ctx),
         "C06" => c06::run(ctx),
         "C07" => c07::run(ctx),
@@ -72,6 +73,7 @@ pub fn replay(prop: &str, case: &str, rep: &mut Report) -> bool {
         "C16" => c16::replay(case, rep),
         "C17" => c17::replay(case, rep),
         "C18" => c18::replay(case, rep),
+        "C19" => c19::replay(case, rep),
         "C20" => c20::replay(case, rep),
         "C06" => c06::replay(case, rep),
         "C07" => c07::replay(case, rep),
